@@ -99,7 +99,12 @@ let () =
            let wd = Array.init nd (fun _ -> nf ()) in
            let nt = Array.fold_left ( * ) 1 nxp in
            let a = Array.init nt (fun _ -> nf ()) in
-           if nd = 2 then begin
+           if nd = 2 && not (shape_ok2 { px = per.(0); py = per.(1); nxg = z_of_int nxg.(0); nyg = z_of_int nxg.(1); wx = wd.(0); wy = wd.(1) }) then
+             Printf.printf "REFUSED\n"
+           else if nd = 3 && not (shape_ok3 { qx = per.(0); qy = per.(1); qz = per.(2); mxg = z_of_int nxg.(0); myg = z_of_int nxg.(1);
+                        mzg = z_of_int nxg.(2); vx = wd.(0); vy = wd.(1); vz = wd.(2) }) then
+             Printf.printf "REFUSED\n"
+           else if nd = 2 then begin
              let sh = { px = per.(0); py = per.(1); nxg = z_of_int nxg.(0); nyg = z_of_int nxg.(1); wx = wd.(0); wy = wd.(1) } in
              let af = fun2 nxp.(1) a in
              let r = List.map (atimes2 fops sh af) (all_ix2 sh) in
